@@ -122,6 +122,10 @@ func genC04(t *rapid.T, tier string) (*World, any) {
 		p.Pre = "qq" + drawWord(t, 1, 2, "pre")
 		p.Post = drawWord(t, 1, 2, "post") + "kk"
 	}
+	if p.Concat && chance(t, 25, "lone-verbatim") {
+		// a block that consists of one verbatim line with a top-level alternation is still one unit
+		p.Words = []C04Word{{Line: "'" + pick(t, []string{"kk|mm", "ap(?:t)?|yu", "a|b|c"}, "lonev")}}
+	}
 	// the intended complete configuration
 	full := map[string]cfgPattern{}
 	for _, sh := range []string{"unix", "windows"} {
@@ -250,6 +254,11 @@ func genC04(t *rapid.T, tier string) (*World, any) {
 	}
 	w.Put("crs/regex-assembly/932100.ra", joinLines(lines))
 	return w, p
+}
+
+var verbatimSamples = map[string][]string{
+	"ab+c": {"abc", "abbc"}, "x[0-9]y": {"x5y"}, "p(?:q|r)s": {"pqs", "prs"},
+	"kk|mm": {"kk", "mm"}, "ap(?:t)?|yu": {"ap", "apt", "yu"}, "a|b|c": {"a", "b", "c"},
 }
 
 // word model from the statement
@@ -383,6 +392,22 @@ func evalC04(sc *Scenario, sim *Sim) ([]Violation, bool, string) {
 	spaces := []string{" ", "\t", "  ", " \t ", "\n"}
 	for wi, m := range models {
 		if m.Verbatim != "" {
+			// a verbatim line is an ordinary regex: its own sample strings must match in context, halves of the concatenation must not
+			for _, smp := range verbatimSamples[m.Verbatim] {
+				pos := p.Pre + smp + p.Post
+				if !gen.MatchString(pos) {
+					add("must-match", "verbatim-line", fmt.Sprintf("%q is matched by the verbatim line %q (in context) but not by the generated regex", pos, p.Words[wi].Line), "")
+					return viol, true, ""
+				}
+				if p.Concat {
+					for _, ng := range []string{p.Pre + smp, smp + p.Post, smp} {
+						if !upper.MatchString(ng) && gen.MatchString(ng) {
+							add("must-not-match", "verbatim-line", fmt.Sprintf("%q is only a part of the concatenation around the verbatim line %q but the generated regex matches it", ng, p.Words[wi].Line), "")
+							return viol, true, ""
+						}
+					}
+				}
+			}
 			continue
 		}
 		for k := 0; k < 8; k++ {
